@@ -11,7 +11,7 @@
 EXTENDS SmfRef, MusRef, XmiRef, Mus2Mid, Xmi2Mid, Json, IOUtils, Sequences
 
 T == ndJsonDeserialize(IOEnv.TRACE)
-MaxFails == 12
+MaxFails == 30     \* per label
 VARIABLES l, src, sel, prev, fails, cnt, exec, drift
 vars == <<l, src, sel, prev, fails, cnt, exec, drift>>
 
@@ -27,7 +27,8 @@ Cnt0 == [steps |-> 0, execs |-> 0, encoders |-> 0,
 Init == l = 1 /\ src = Src0 /\ sel = 0 /\ prev = Prev0 /\ fails = <<>> /\ cnt = Cnt0 /\ exec = 0 /\ drift = <<>>
 
 Tag(S, ev, d) == { [p |-> "C17", w |-> x, l |-> l, x |-> exec, e |-> ev.e, d |-> d] : x \in S }
-AddFails(S) == IF Len(fails) >= MaxFails \/ S = {} THEN fails ELSE fails \o SetToSeq(S)
+AddFails(S) == LET keep == { x \in S : Cardinality({ i \in DOMAIN fails : fails[i].w = x.w }) < MaxFails } IN
+               IF keep = {} THEN fails ELSE fails \o SetToSeq(keep)
 Lbl(c, s) == IF c THEN {} ELSE {s}
 
 ---------------------------------------------------------------------------
